@@ -110,8 +110,9 @@ func (m *sysMonitors) beforeStep(ct *sysCtrl, key string) {
 	}
 	cj := o.(*execution.Job).DeepCopy()
 	m.cachedJob = cj
-	// E-OrphanVisible: once creation is disabled, every unrecorded pod owned by the Job on the
-	// server must be in the pod cache (unrecorded tasks are adopted from the cache)
+	// E-OrphanVisible: once creation is disabled or the Job is being deleted, every unrecorded pod
+	// owned by the Job on the server must be in the pod cache (unrecorded tasks are adopted from
+	// the cache: by the kill sweep, and since the repair of F-C20-1 by the finalizer)
 	_, adm := jobutil.GetAdmissionErrorMessage(cj)
 	if cj.Spec.KillTimestamp == nil && !adm && cj.DeletionTimestamp == nil {
 		return
@@ -128,7 +129,7 @@ func (m *sysMonitors) beforeStep(ct *sysCtrl, key string) {
 		if listed[p.Name] {
 			continue
 		}
-		if _, cached := m.w.ctx.Sim().Pods().CacheGet(&corev1.Pod{ObjectMeta: metav1.ObjectMeta{Namespace: "ns", Name: p.Name}}); !cached || cj.DeletionTimestamp != nil {
+		if _, cached := m.w.ctx.Sim().Pods().CacheGet(&corev1.Pod{ObjectMeta: metav1.ObjectMeta{Namespace: "ns", Name: p.Name}}); !cached {
 			if !m.jm(name).envelopeBroken {
 				m.w.c.Count("sys.envelope.orphan-invisible")
 			}
@@ -667,9 +668,9 @@ func (m *sysMonitors) atQuiescence() {
 }
 
 // orphans lists the pods created by the job controller whose owner Job no longer exists.  Pods
-// of Jobs for which E-OrphanVisible was broken (a task that was created but never recorded while
-// the Job was already being deleted: the finalizer only sweeps recorded tasks, DESIGN Appendix
-// A.7 — known finding F-C20-1, judged only in its own corpus scenario) are left out.
+// of Jobs for which E-OrphanVisible was broken (a task that was created but never recorded and
+// that the pod cache had not seen when the finalizer ran: it sweeps the recorded tasks and, since
+// the repair of F-C20-1, the unrecorded ones of the pod CACHE) are left out.
 func (m *sysMonitors) orphans() []string {
 	var out []string
 	for _, p := range m.w.pods() {
